@@ -160,6 +160,47 @@ theorem prefix_strip_open (c : Nat) (cs rest : Str) (d : Bool) (hc0 : isNameStar
     List.length_nil] at this
   simpa using this
 
+/-- the same for end tags: `</p:` loses the prefix and the colon -/
+theorem prefix_strip_close (c : Nat) (cs rest : Str) (d : Bool) (hc0 : isNameStart c = true) (hall : ∀ x ∈ cs, isNameChar x = true) :
+    scan prefixMatch false 0 d (60 :: 47 :: ((c :: cs) ++ 58 :: rest)) = 60 :: 47 :: scan prefixMatch false 0 true rest := by
+  have hspan := span_append isNameChar cs 58 rest hall (by decide)
+  have hn : nameSpan ((c :: cs) ++ 58 :: rest) = some (c :: cs, 58 :: rest) := by
+    simp only [nameSpan, List.cons_append, hc0, if_true, hspan]
+  have hm : prefixMatch (60 :: 47 :: ((c :: cs) ++ 58 :: rest)) = some (1 + (c :: cs).length + 1, [60, 47]) := by
+    simp only [prefixMatch]
+    rw [hn]; rfl
+  simp only [scan, Bool.false_and, hm]
+  have h := scan_skip prefixMatch false true ((c :: cs) ++ [58]) rest
+  have e1 : ((c :: cs) ++ [58]) ++ rest = c :: cs ++ 58 :: rest := by simp
+  have e2 : ((c :: cs) ++ [58]).length = 1 + (c :: cs).length := by simp; omega
+  rw [e1, e2] at h
+  simp only [Bool.false_eq_true, if_false, List.cons_append, List.nil_append]
+  simp only [List.cons_append] at h
+  rw [h]
+
+/-- **the namespace declaration** `xmlns:p` becomes `xmlns` (first occurrence), for every prefix that is an ASCII name, when what follows
+the name is not a name character (it is `=` in a document) -/
+theorem nsdecl_rewritten (c : Nat) (cs : Str) (e : Nat) (rest : Str) (hc0 : isNameStart c = true) (hall : ∀ x ∈ cs, isNameChar x = true)
+    (he : isNameChar e = false) :
+    scan nsMatch true 0 false (xmlnsColon ++ (c :: cs) ++ e :: rest) = xmlnsWord ++ e :: scan nsMatch true 0 true rest := by
+  have hspan := span_append isNameChar cs e rest hall he
+  have hn : nameSpan ((c :: cs) ++ e :: rest) = some (c :: cs, e :: rest) := by
+    simp only [nameSpan, List.cons_append, hc0, if_true, hspan]
+  have hm : nsMatch (xmlnsColon ++ (c :: cs) ++ e :: rest) = some (xmlnsColon.length + (c :: cs).length - 1, xmlnsWord) := by
+    have hsp : stripPrefix? xmlnsColon (xmlnsColon ++ ((c :: cs) ++ e :: rest)) = some ((c :: cs) ++ e :: rest) := by
+      simp [xmlnsColon, stripPrefix?]
+    simp only [nsMatch, List.append_assoc, hsp, hn]
+  have hx : xmlnsColon ++ (c :: cs) ++ e :: rest = 120 :: ([109, 108, 110, 115, 58] ++ (c :: cs) ++ e :: rest) := by simp [xmlnsColon]
+  rw [hx] at hm ⊢
+  simp only [scan, Bool.true_and, Bool.false_eq_true, if_false, hm]
+  have := scan_skip nsMatch true true ([109, 108, 110, 115, 58] ++ (c :: cs)) (e :: rest)
+  simp only [List.append_assoc, List.length_append, List.length_cons, List.length_nil] at this
+  have hlen : xmlnsColon.length + (c :: cs).length - 1 = 0 + 1 + 1 + 1 + 1 + 1 + (cs.length + 1) := by simp [xmlnsColon]; omega
+  rw [hlen]
+  simp only [List.append_assoc] at this ⊢
+  rw [this]
+  simp [scan]
+
 /-- MathJax bookkeeping attribute `class="LIT…"`: matched whole (up to the closing quote) and deleted -/
 theorem lazyToQuote_spec (body : Str) (q : Nat) (rest : Str) (hq : isQuote q = true)
     (hb : ∀ c ∈ body, isQuote c = false ∧ c ≠ 10) : lazyToQuote (body ++ q :: rest) = some (body.length + 1) := by
